@@ -4,6 +4,16 @@
   operations `aOpsR` produce, byte for byte, the model's `Geo.rCompressNode` / `Geo.RTree.compress`
   on the abstraction `absNode` of the generated tree, and never panic (every `PutUint32` lands on
   4 placeholder bytes that were appended before; every type assertion succeeds).
+
+  Hypotheses (`RWF`, and `0 ≤ height < 256` for the tree), all NEEDED because the model's byte cells
+  are untruncated `Nat`s while the Go source casts:
+    * `byte(n.count)`, `byte(tr.height)`: the generated `intToU 8 _`; the model pushes `entries.length`
+      / `tr.height` as they are.  `SlotsOK` gives `0 ≤ count ≤ 17 < 256` (the node has 17 slots, so a
+      larger count panics in Go anyway: `n.rects[i]` out of range).
+    * `uint32(r.data.(int))`: the generated `intToU 32 v`; the model keeps the item `v.toNat`.  For an
+      item `v = 2^32` Go writes width 1 / byte 0, the model width 4 / bytes 0,0,0,0; a negative `v`
+      has no abstraction at all (`absLeafEntry` is `none`).  Hence `0 ≤ v < 2^32` in `LeafSlotOK`.
+    * `uint32(len(dst))` (the child address) needs NO hypothesis: `putU32` keeps 4 bytes (`putU32_mod`).
 -/
 import GeoProofs.Glue.IndexGlueR
 import GeoProofs.Glue.IndexGlueCompress
@@ -60,4 +70,401 @@ theorem intToU32_small (v : Int) (h0 : 0 ≤ v) (h1 : v < 4294967296) : intToU 3
   simp only [intToU, e]
   omega
 
+/-! ## counted loops with an index-dependent invariant -/
+
+/-- the fold with the running index (the shape of the model's `rCompressNode.go`) -/
+def foldIdx {α σ : Type} (f : Nat → σ → α → σ) : List α → Nat → σ → σ
+  | [], _, s => s
+  | x :: xs, i, s => foldIdx f xs (i + 1) (f i s x)
+
+theorem foldIdx_inv {α σ : Type} (P : Nat → σ → Prop) (f : Nat → σ → α → σ) (xs : List α) :
+    ∀ (off : Nat) (s : σ), P off s →
+      (∀ k (h : k < xs.length) s, P (off + k) s → P (off + k + 1) (f (off + k) s xs[k])) →
+      P (off + xs.length) (foldIdx f xs off s) := by
+  induction xs with
+  | nil => intro off s h _; exact h
+  | cons x xs ih =>
+    intro off s hP hstep
+    simp only [foldIdx, List.length_cons]
+    have h0 := hstep 0 (by simp) s hP
+    simp only [Nat.add_zero, List.getElem_cons_zero] at h0
+    have := ih (off + 1) (f off s x) h0 (by
+      intro k h s hs
+      have e : off + 1 + k = off + (k + 1) := by omega
+      have := hstep (k + 1) (by simp only [List.length_cons]; omega) s (by rw [← e]; exact hs)
+      simp only [List.getElem_cons_succ] at this
+      rw [e]; exact this)
+    have e : off + 1 + xs.length = off + (xs.length + 1) := by omega
+    rw [← e]; exact this
+
+theorem loopM_range'_idx {α σ : Type} (P : Nat → σ → Prop) (f : Nat → σ → α → σ)
+    (body : Int → σ → Option σ) (xs : List α) :
+    ∀ (off : Nat) (s : σ), P off s →
+      (∀ k (h : k < xs.length) s, P (off + k) s → P (off + k + 1) (f (off + k) s xs[k])) →
+      (∀ k (h : k < xs.length) s, P (off + k) s →
+        body (Int.ofNat (off + k)) s = some (f (off + k) s xs[k])) →
+      loopM ((List.range' off xs.length).map Int.ofNat) s body = some (foldIdx f xs off s) := by
+  induction xs with
+  | nil => intro off s _ _ _; rfl
+  | cons x xs ih =>
+    intro off s hP hstep hb
+    simp only [List.length_cons, List.range'_succ, List.map_cons, loopM, foldIdx]
+    have b0 := hb 0 (by simp) s hP
+    have h0 := hstep 0 (by simp) s hP
+    simp only [Nat.add_zero, List.getElem_cons_zero] at b0 h0
+    rw [b0]
+    apply ih (off + 1) (f off s x) h0
+    · intro k h s hs
+      have e : off + 1 + k = off + (k + 1) := by omega
+      have := hstep (k + 1) (by simp only [List.length_cons]; omega) s (by rw [← e]; exact hs)
+      simp only [List.getElem_cons_succ] at this
+      rw [e]; exact this
+    · intro k h s hs
+      have e : off + 1 + k = off + (k + 1) := by omega
+      have := hb (k + 1) (by simp only [List.length_cons]; omega) s (by rw [← e]; exact hs)
+      simp only [List.getElem_cons_succ] at this
+      rw [e]; exact this
+
+/-- `for i := 0; i < n; i++ { s = f(i, s, xs[i]) }` with an invariant `P i s` is the indexed fold -/
+theorem loopM_intRange_idx {α σ : Type} (P : Nat → σ → Prop) (f : Nat → σ → α → σ)
+    (body : Int → σ → Option σ) (xs : List α) (n : Nat) (hn : xs.length = n) (s : σ) (hP : P 0 s)
+    (hstep : ∀ k (h : k < xs.length) s, P k s → P (k + 1) (f k s xs[k]))
+    (hb : ∀ k (h : k < xs.length) s, P k s → body (Int.ofNat k) s = some (f k s xs[k])) :
+    loopM (intRange 0 (n : Int)) s body = some (foldIdx f xs 0 s) := by
+  subst hn
+  show loopM (intRange 0 (Int.ofNat xs.length)) s body = _
+  rw [intRange_zero]
+  apply loopM_range'_idx P f body xs 0 s hP
+  · intro k h s hs
+    simp only [Nat.zero_add] at hs ⊢
+    exact hstep k h s hs
+  · intro k h s hs
+    simp only [Nat.zero_add] at hs ⊢
+    exact hb k h s hs
+
+theorem foldIdx_const {α σ : Type} (f : σ → α → σ) (xs : List α) :
+    ∀ (i : Nat) (s : σ), foldIdx (fun _ s x => f s x) xs i s = xs.foldl f s := by
+  induction xs with
+  | nil => intro _ _; rfl
+  | cons x xs ih => intro i s; simp only [foldIdx, List.foldl_cons, ih]
+
+theorem mapM_eq_some_map {α β : Type} (g : α → Option β) (g' : α → β) (xs : List α)
+    (h : ∀ e ∈ xs, g e = some (g' e)) : xs.mapM g = some (xs.map g') := by
+  induction xs with
+  | nil => rfl
+  | cons x xs ih =>
+    rw [List.mapM_cons, h x (by simp), ih (fun e he => h e (by simp [he]))]
+    rfl
+
+theorem listAt_take {α : Type} (xs : List α) (c k : Nat) (hk : k < (xs.take c).length) :
+    listAt xs (Int.ofNat k) = some (xs.take c)[k] := by
+  have h1 : k < xs.length := by
+    rw [List.length_take] at hk; omega
+  rw [listAt_ofNat _ _ h1, List.getElem_take]
+
+/-! ## well-formed generated nodes -/
+
+/-- the item of a leaf slot -/
+def leafItem (e : IGen.RRect F) : Nat :=
+  match e.data with
+  | .int v => v.toNat
+  | _ => 0
+
+/-- a leaf slot holds an `int` item that fits `uint32` (Go: `uint32(r.data.(int))`) -/
+def LeafSlotOK (e : IGen.RRect F) : Prop := ∃ v, e.data = .int v ∧ 0 ≤ v ∧ v < 4294967296
+
+/-- a well-formed generated node of height `h`: `data` holds a `*rNode` with its 17 slots and
+    `0 ≤ count ≤ 17`; the used slots of a leaf hold `uint32` items, the used slots of an inner
+    node are well-formed nodes one level down -/
+def RWF : Nat → IGen.RRect F → Prop
+  | 0, r => ∃ nd, r.data = .rNode nd ∧ SlotsOK nd ∧ ∀ e ∈ usedSlots nd, LeafSlotOK e
+  | h+1, r => ∃ nd, r.data = .rNode nd ∧ SlotsOK nd ∧ ∀ e ∈ usedSlots nd, RWF h e
+
+omit [KNum F] [Carrier F] in
+@[simp] theorem count_mk (c : Int) (rs : List (IGen.RRect F)) : (IGen.RNode.mk c rs).count = c := rfl
+omit [KNum F] [Carrier F] in
+@[simp] theorem rects_mk (c : Int) (rs : List (IGen.RRect F)) : (IGen.RNode.mk c rs).rects = rs := rfl
+
+omit [KNum F] [Carrier F] in
+theorem absLeafEntry_ok (e : IGen.RRect F) (h : LeafSlotOK e) :
+    absLeafEntry e = some (rbox e, leafItem e) := by
+  obtain ⟨v, hv, h0, _⟩ := h
+  simp [absLeafEntry, leafItem, hv, h0]
+
+omit [KNum F] [Carrier F] in
+theorem leafSlot_asInt (e : IGen.RRect F) (h : LeafSlotOK e) :
+    ∃ v, e.data.asInt = some v ∧ intToU 32 v = leafItem e := by
+  obtain ⟨v, hv, h0, h1⟩ := h
+  exact ⟨v, by simp [hv, Dyn.asInt], by simp [leafItem, hv, intToU32_small v h0 h1]⟩
+
+theorem loopM_intRange_n {α σ : Type} (f : σ → α → σ) (body : Int → σ → Option σ) (xs : List α)
+    (n : Nat) (hn : xs.length = n) (s : σ)
+    (hb : ∀ k (h : k < xs.length) s, body (Int.ofNat k) s = some (f s xs[k])) :
+    loopM (intRange 0 (n : Int)) s body = some (xs.foldl f s) := by
+  subst hn
+  exact loopM_intRange f body xs s hb
+
+theorem rcompress_leaf (fuel : Nat) (r : IGen.RRect F) (hw : RWF 0 r) (dst : Array Nat) :
+    ∃ nb nd, absNode 0 r = some (nb, nd) ∧
+      IGen.rRect_compress (aOpsR segAt segRect f64 bits isNil) (fuel + 1) r dst (Int.ofNat 0) =
+        some (Geo.rCompressNode (encOf bits) nb nd dst) := by
+  obtain ⟨nd, hd, hs, hl⟩ := hw
+  cases r with
+  | mk data m0 m1 M0 M1 =>
+  simp only [RRect.data] at hd
+  subst hd
+  cases nd with
+  | mk count rects =>
+  simp only [SlotsOK, rects_mk, count_mk] at hs
+  obtain ⟨hlen, hc0, hc17⟩ := hs
+  obtain ⟨c, rfl⟩ : ∃ c : Nat, count = (c : Int) := ⟨count.toNat, by omega⟩
+  simp only [usedSlots, rects_mk, count_mk, Int.toNat_natCast] at hl
+  have hxs : (rects.take c).length = c := by
+    rw [List.length_take]; omega
+  have habs : absNode 0 (.mk (.rNode (.mk (c : Int) rects)) m0 m1 M0 M1) =
+      some (⟨m0, m1, M0, M1⟩, .leaf ((rects.take c).map (fun e => (rbox e, leafItem e)))) := by
+    simp only [absNode, RRect.data, usedSlots, rects_mk, count_mk, Int.toNat_natCast]
+    rw [mapM_eq_some_map _ _ _ (fun e he => absLeafEntry_ok e (hl e he))]
+    rfl
+  refine ⟨_, _, habs, ?_⟩
+  rw [rCompressNode, IGen.rRect_compress]
+  have ez : (Int.ofNat 0 == 0) = true := by decide
+  have ec8 : intToU 8 (c : Int) = c := intToU8_ofNat c (by omega)
+  have eapp : ∀ (d : Array Nat) (l : List Nat),
+      (aOpsR segAt segRect f64 bits isNil).bytesAppend d l = d ++ l.toArray := fun _ _ => rfl
+  simp only [Dyn.asRNode, appendFloat_eqR, Option.bind_eq_bind, Option.bind_some, count_mk, rects_mk,
+    ez, if_true, ec8, eapp, numBytes_eq, appendNum_eqR]
+  rw [loopM_intRange_n (f := fun w e => max w (Geo.numBytes (leafItem e))) _ (rects.take c) c hxs]
+  · simp only [Option.bind_some]
+    rw [loopM_intRange_n (f := fun d e => Geo.appendNum d (leafItem e)
+      (List.foldl (fun w e => max w (Geo.numBytes (leafItem e))) 1 (rects.take c))) _ (rects.take c) c hxs]
+    · simp only [Option.bind_some, List.foldl_map, List.length_map, hxs, appendBox]
+      simp
+    · intro k h s
+      obtain ⟨v, hv, hi⟩ := leafSlot_asInt _ (hl _ (List.getElem_mem h))
+      simp only [listAt_take rects c k h, Option.bind_some, hv, hi]
+  · intro k h s
+    obtain ⟨v, hv, hi⟩ := leafSlot_asInt _ (hl _ (List.getElem_mem h))
+    simp only [listAt_take rects c k h, Option.bind_some, hv, hi]
+    by_cases hgt : Geo.numBytes (leafItem (rects.take c)[k]) > s
+    · simp only [hgt, decide_true, if_true]
+      congr 1
+      omega
+    · simp only [hgt, decide_false, Bool.false_eq_true, if_false]
+      congr 1
+      omega
+
+/-! ## inner nodes -/
+
+/-- the abstraction of a slot as a total function (the default is never used on well-formed nodes) -/
+def absD (h : Nat) (c : IGen.RRect F) : GBox F × Geo.RNode F :=
+  (absNode h c).getD (rbox c, .leaf [])
+
+theorem intToU32_cast (n : Nat) : intToU 32 (n : Int) = n % 4294967296 := intToU32_ofNat n
+
+theorem marks_snd {α : Type} (xs : List α) :
+    ∀ (i : Nat) (m : List Int) (d : Array Nat),
+      (foldIdx (fun (k : Nat) (x : List Int × Array Nat) (_ : α) =>
+        (x.1.set k (x.2.size : Int), x.2 ++ #[0, 0, 0, 0])) xs i (m, d)).2 =
+        xs.foldl (fun d _ => d ++ #[0, 0, 0, 0]) d := by
+  induction xs with
+  | nil => intro _ _ _; rfl
+  | cons x xs ih => intro i m d; simp only [foldIdx, List.foldl_cons, ih]
+
+omit [KNum F] [Carrier F] in
+theorem go_map (enc : F → List Nat) (h M : Nat) (xs : List (IGen.RRect F)) :
+    ∀ (i : Nat) (d : Array Nat),
+      rCompressNode.go enc M (xs.map (absD h)) i d =
+        foldIdx (fun k d e => rCompressNode enc (absD h e).1 (absD h e).2 (putU32 d (M + 4 * k) d.size))
+          xs i d := by
+  induction xs with
+  | nil => intro i d; rw [List.map_nil, rCompressNode.go]; rfl
+  | cons x xs ih =>
+    intro i d
+    rw [List.map_cons, rCompressNode.go, foldIdx, ih]
+
+theorem rcompress_inner (h fuel : Nat) (r : IGen.RRect F) (hw : RWF (h + 1) r)
+    (ih : ∀ c : IGen.RRect F, RWF h c → ∀ dst : Array Nat, ∃ nb nd, absNode h c = some (nb, nd) ∧
+      IGen.rRect_compress (aOpsR segAt segRect f64 bits isNil) fuel c dst (Int.ofNat h) =
+        some (Geo.rCompressNode (encOf bits) nb nd dst))
+    (dst : Array Nat) :
+    ∃ nb nd, absNode (h + 1) r = some (nb, nd) ∧
+      IGen.rRect_compress (aOpsR segAt segRect f64 bits isNil) (fuel + 1) r dst (Int.ofNat (h + 1)) =
+        some (Geo.rCompressNode (encOf bits) nb nd dst) := by
+  obtain ⟨nd, hd, hs, hl⟩ := hw
+  cases r with
+  | mk data m0 m1 M0 M1 =>
+  simp only [RRect.data] at hd
+  subst hd
+  cases nd with
+  | mk count rects =>
+  simp only [SlotsOK, rects_mk, count_mk] at hs
+  obtain ⟨hlen, hc0, hc17⟩ := hs
+  obtain ⟨c, rfl⟩ : ∃ c : Nat, count = (c : Int) := ⟨count.toNat, by omega⟩
+  simp only [usedSlots, rects_mk, count_mk, Int.toNat_natCast] at hl
+  have hxs : (rects.take c).length = c := by
+    rw [List.length_take]; omega
+  have hslot : ∀ e ∈ rects.take c, absNode h e = some (absD h e) := by
+    intro e he
+    obtain ⟨nb, nd, h1, _⟩ := ih e (hl e he) #[]
+    simp [absD, h1]
+  have ihc : ∀ e ∈ rects.take c, ∀ d : Array Nat,
+      IGen.rRect_compress (aOpsR segAt segRect f64 bits isNil) fuel e d (Int.ofNat h) =
+        some (Geo.rCompressNode (encOf bits) (absD h e).1 (absD h e).2 d) := by
+    intro e he d
+    obtain ⟨nb, nd, h1, h2⟩ := ih e (hl e he) d
+    rw [h2]
+    simp [absD, h1]
+  have habs : absNode (h + 1) (.mk (.rNode (.mk (c : Int) rects)) m0 m1 M0 M1) =
+      some (⟨m0, m1, M0, M1⟩, .inner ((rects.take c).map (absD h))) := by
+    simp only [absNode, RRect.data, usedSlots, rects_mk, count_mk, Int.toNat_natCast]
+    rw [mapM_eq_some_map _ _ _ hslot]
+    rfl
+  refine ⟨_, _, habs, ?_⟩
+  rw [rCompressNode, IGen.rRect_compress]
+  have ez : (Int.ofNat (h + 1) == 0) = false := by
+    simp only [Int.ofNat_eq_natCast, beq_eq_false_iff_ne, ne_eq]; omega
+  have eh : Int.ofNat (h + 1) - 1 = Int.ofNat h := by
+    simp only [Int.ofNat_eq_natCast]; omega
+  have ec8 : intToU 8 (c : Int) = c := intToU8_ofNat c (by omega)
+  have eapp : ∀ (d : Array Nat) (l : List Nat),
+      (aOpsR segAt segRect f64 bits isNil).bytesAppend d l = d ++ l.toArray := fun _ _ => rfl
+  have elen : ∀ (d : Array Nat), (aOpsR segAt segRect f64 bits isNil).bytesLen d = (d.size : Int) :=
+    fun _ => rfl
+  simp only [Dyn.asRNode, appendFloat_eqR, Option.bind_eq_bind, Option.bind_some, count_mk, rects_mk,
+    ez, eh, Bool.false_eq_true, if_false, ec8, eapp, elen, Int.toNat_natCast, List.length_map, hxs]
+  have eD0 : (appendBox (encOf bits) dst ⟨m0, m1, M0, M1⟩).push c =
+      dst ++ (encOf bits m0).toArray ++ (encOf bits m1).toArray ++ (encOf bits M0).toArray ++
+        (encOf bits M1).toArray ++ [c].toArray := by
+    simp [appendBox]
+  rw [eD0]
+  generalize dst ++ (encOf bits m0).toArray ++ (encOf bits m1).toArray ++ (encOf bits M0).toArray ++
+        (encOf bits M1).toArray ++ [c].toArray = D0
+  -- the first loop: the marks and the placeholders
+  rw [loopM_intRange_idx
+    (P := fun k (x : List Int × Array Nat) => x.1.length = c ∧ x.2.size = D0.size + 4 * k ∧
+      ∀ j, j < k → x.1[j]? = some ((D0.size + 4 * j : Nat) : Int))
+    (f := fun (k : Nat) (x : List Int × Array Nat) (_ : IGen.RRect F) =>
+      (x.1.set k (x.2.size : Int), x.2 ++ #[0, 0, 0, 0])) _ (rects.take c) c hxs]
+  rotate_left
+  · exact ⟨by simp, by simp, fun j hj => absurd hj (Nat.not_lt_zero _)⟩
+  · rintro k hk ⟨m, d⟩ ⟨p1, p2, p3⟩
+    simp only at p1 p2 p3 ⊢
+    refine ⟨by simp [p1], by simp [p2]; omega, ?_⟩
+    intro j hj
+    by_cases hjk : j = k
+    · subst hjk
+      rw [List.getElem?_set_self (by omega), p2]
+    · rw [List.getElem?_set_ne (by omega), p3 j (by omega)]
+  · rintro k hk ⟨m, d⟩ ⟨p1, p2, p3⟩
+    simp only at p1 ⊢
+    have h1 : k < m.length := by omega
+    have h2 : ¬ ((k : Int) < 0) := by omega
+    simp [listSet, h1, h2]
+  have hQ := foldIdx_inv
+    (fun k (x : List Int × Array Nat) => x.1.length = c ∧ x.2.size = D0.size + 4 * k ∧
+      ∀ j, j < k → x.1[j]? = some ((D0.size + 4 * j : Nat) : Int))
+    (fun (k : Nat) (x : List Int × Array Nat) (_ : IGen.RRect F) =>
+      (x.1.set k (x.2.size : Int), x.2 ++ #[0, 0, 0, 0])) (rects.take c) 0 (List.replicate c 0, D0)
+    ⟨by simp, by simp, fun j hj => absurd hj (Nat.not_lt_zero _)⟩
+    (by
+      rintro k hk ⟨m, d⟩ ⟨p1, p2, p3⟩
+      simp only [Nat.zero_add] at p1 p2 p3 ⊢
+      refine ⟨by simp [p1], by simp [p2]; omega, ?_⟩
+      intro j hj
+      by_cases hjk : j = k
+      · subst hjk
+        rw [List.getElem?_set_self (by omega), p2]
+      · rw [List.getElem?_set_ne (by omega), p3 j (by omega)])
+  have hS := marks_snd (rects.take c) 0 (List.replicate c 0) D0
+  simp only [Option.bind_some, List.foldl_map]
+  rw [← hS]
+  generalize foldIdx (fun (k : Nat) (x : List Int × Array Nat) (_ : IGen.RRect F) =>
+      (x.1.set k (x.2.size : Int), x.2 ++ #[0, 0, 0, 0])) (rects.take c) 0 (List.replicate c 0, D0) = R1
+    at hQ ⊢
+  obtain ⟨mk, D1⟩ := R1
+  obtain ⟨q1, q2, q3⟩ := hQ
+  simp only [Nat.zero_add, hxs] at q1 q2 q3 ⊢
+  -- the second loop: the child addresses and the children
+  rw [loopM_intRange_idx
+    (P := fun _ (d : Array Nat) => D0.size + 4 * c ≤ d.size)
+    (f := fun (k : Nat) (d : Array Nat) (e : IGen.RRect F) =>
+      rCompressNode (encOf bits) (absD h e).1 (absD h e).2 (putU32 d (D0.size + 4 * k) d.size))
+    _ (rects.take c) c hxs]
+  · simp only [Option.bind_some, go_map]
+  · show D0.size + 4 * c ≤ D1.size
+    omega
+  · intro k hk d hd
+    have := (rCompressNode_spec (encOf bits) (absD h (rects.take c)[k]).2 (absD h (rects.take c)[k]).1
+      (putU32 d (D0.size + 4 * k) d.size)).1
+    rw [size_putU32] at this
+    exact Nat.le_trans hd this
+  · intro k hk d hd
+    have hk' : k < c := by omega
+    have hneg : ¬ ((k : Int) < 0) := by omega
+    have hmk : listAt mk (Int.ofNat k) = some ((D0.size + 4 * k : Nat) : Int) := by
+      simp only [listAt, Int.ofNat_eq_natCast, hneg, if_false, Int.toNat_natCast]
+      exact q3 k hk'
+    have hput : (aOpsR segAt segRect f64 bits isNil).putUint32 d ((D0.size + 4 * k : Nat) : Int)
+        (intToU 32 (d.size : Int)) = some (putU32 d (D0.size + 4 * k) d.size) := by
+      rw [intToU32_cast]
+      simp only [aOpsR, Int.toNat_natCast, putU32_mod]
+      rw [if_pos]
+      exact ⟨by omega, by omega⟩
+    simp only [hmk, Option.bind_some, hput, listAt_take rects c k hk,
+      ihc _ (List.getElem_mem hk)]
+
+/-! ## the node and the tree -/
+
+/-- generated `(*rRect).compress` = the model's `rCompressNode` on the abstraction of the node -/
+theorem rcompress_eq (h : Nat) (fuel : Nat) (hf : h < fuel) (r : IGen.RRect F) (hw : RWF h r)
+    (dst : Array Nat) :
+    ∃ nb nd, absNode h r = some (nb, nd) ∧
+      IGen.rRect_compress (aOpsR segAt segRect f64 bits isNil) fuel r dst (Int.ofNat h) =
+        some (Geo.rCompressNode (encOf bits) nb nd dst) := by
+  induction h generalizing fuel r dst with
+  | zero =>
+    obtain ⟨fuel', rfl⟩ : ∃ f', fuel = f' + 1 := ⟨fuel - 1, by omega⟩
+    exact rcompress_leaf segAt segRect f64 bits isNil fuel' r hw dst
+  | succ h ih =>
+    obtain ⟨fuel', rfl⟩ : ∃ f', fuel = f' + 1 := ⟨fuel - 1, by omega⟩
+    exact rcompress_inner segAt segRect f64 bits isNil h fuel' r hw
+      (fun c hc d => ih fuel' (by omega) c hc d) dst
+
+omit [KNum F] [Carrier F] in
+theorem absNode_nil (h : Nat) (r : IGen.RRect F) (hn : r.data = .nil) : absNode h r = none := by
+  cases h <;> simp [absNode, hn]
+
+/-- generated `(*rTree).compress` = the model's `RTree.compress` on the abstraction of the tree
+    (an empty tree, `root.data == nil`, abstracts to the root `none`) -/
+theorem rtree_compress_eq (fuel : Nat) (tr : IGen.RTree F) (h0 : 0 ≤ tr.height)
+    (h256 : tr.height < 256) (hf : tr.height.toNat < fuel)
+    (hr : tr.root.data = .nil ∨ RWF tr.height.toNat tr.root) (dst : Array Nat) :
+    IGen.rTree_compress (aOpsR segAt segRect f64 bits isNil) fuel tr dst =
+      some (Geo.RTree.compress (encOf bits)
+        ⟨tr.height.toNat, absNode tr.height.toNat tr.root⟩ dst) := by
+  obtain ⟨height, root, count, reinsert⟩ := tr
+  simp only at h0 h256 hf hr ⊢
+  obtain ⟨n, rfl⟩ : ∃ n : Nat, height = (n : Int) := ⟨height.toNat, by omega⟩
+  simp only [Int.toNat_natCast] at hf hr ⊢
+  unfold IGen.rTree_compress Geo.RTree.compress
+  rcases hr with hn | hw
+  · simp [absNode_nil n root hn, hn, Dyn.isNil]
+  · obtain ⟨nb, nd, ha, hc⟩ := rcompress_eq segAt segRect f64 bits isNil n fuel hf root hw
+      (dst ++ [n].toArray)
+    have hnn : Dyn.isNil root.data = false := by
+      cases n with
+      | zero => obtain ⟨x, hx, _⟩ := hw; simp [hx, Dyn.isNil]
+      | succ m => obtain ⟨x, hx, _⟩ := hw; simp [hx, Dyn.isNil]
+    have e8 : intToU 8 (n : Int) = n := intToU8_ofNat n (by omega)
+    have eapp : ∀ (d : Array Nat) (l : List Nat),
+        (aOpsR segAt segRect f64 bits isNil).bytesAppend d l = d ++ l.toArray := fun _ _ => rfl
+    have epush : dst.push n = dst ++ [n].toArray := by simp
+    simp only [hnn, Bool.false_eq_true, if_false, e8, eapp, ha, epush]
+    exact (by simpa using hc)
+
 end Geo.IGlue
+
+#print axioms Geo.IGlue.appendFloat_eqR
+#print axioms Geo.IGlue.rcompress_eq
+#print axioms Geo.IGlue.rtree_compress_eq
